@@ -29,6 +29,7 @@ EXPLANATION = (
   " (ITEM-source) an object built once per item of an inner loop is filled only with values that derive from that item or do not vary with the loops, never with a value of the enclosing container standing where the item's own belongs;"
   ' (LOOP-break) no loop over the items of a collection is left by a branch that does nothing but `break` on a test about the item (end-of-input sentinels, flags set in the loop body and searches whose variable is read afterwards excepted): an item that is to be skipped does not end the processing of the items after it;'
   ' (TAINT) as in C07: model text reaches the WebVTT payload through an escaping function that replaces & < > exactly once each, so the cue carries the visible text and nothing else;'
+  + " (FIN-merge) the paragraph merger, interpreted on sample snapshots (divs nested at several depths, a nested div between paragraphs, one or several regions), leaves one paragraph per region holding the spans of all its paragraphs in document order with one line break between consecutive paragraphs;"
 )
 RULE_TEXT = ("one rule instance per (function, live loop), per (flattener, element kind), per writer for SEQ-end / FIN-default; "
              "distinct = distinct (rule, construct) pairs")
@@ -243,6 +244,8 @@ def check_finish(ctx):
 
 
 def run(ctx):
+  from ..rules import probes as _probes
+  ctx.floor("FIN-merge", "sample snapshots decided", _probes.check_paragraph_merge(ctx), 5)
   fs = common.scope_funcs(ctx, LIVE_MODULES)
   n_loops, n_live = live.check_live(ctx, fs, rule="LIVE")
   ctx.floor("LIVE", "for-loops over a live view in the ISD filters and cue writers", n_live, 5)
